@@ -125,6 +125,16 @@ def resolve_block(func, bpath):
 # --------------------------------------------------------------------------
 # alignment
 
+def _share_a_statement(s, t) -> bool:
+    tf = dict(block_fields(t))
+    for field, sub in block_fields(s):
+        if field in tf:
+            a = {fingerprint(x) for x in sub.stmts}
+            if any(fingerprint(y) in a for y in tf[field].stmts):
+                return True
+    return False
+
+
 def _lcs(a: list, b: list) -> list[tuple[int, int]]:
     n, m = len(a), len(b)
     dp = [[0] * (m + 1) for _ in range(n + 1)]
@@ -200,27 +210,35 @@ class Alignment:
                 inside[oc[a]] = nc[b]
         all_anchor = dict(anchors)
         all_anchor.update(inside)
+        # third pass: a compound statement whose *header* was rewritten while its blocks survive
+        # (a call inlined out of an `if` condition): same kind, same gap, and at least one
+        # statement in common beneath.  The statement itself counts as rewritten (its image is
+        # somewhere in the gap); what is beneath it is aligned rather than written off.
+        carried = {}
+        for (o_lo, o_hi, n_lo, n_hi) in gaps:
+            oc = [i for i in range(o_lo, o_hi) if block_fields(olds[i]) and i not in inside]
+            nc = [j for j in range(n_lo, n_hi) if block_fields(news[j]) and j not in inside.values()]
+            if not oc or not nc:
+                continue
+            to = [type(olds[i]).__name__ for i in oc]
+            tn = [type(news[j]).__name__ for j in nc]
+            for a, b in _lcs(to, tn):
+                if _share_a_statement(olds[oc[a]], news[nc[b]]):
+                    carried[oc[a]] = nc[b]
         self.block[opath] = (npath, all_anchor, len(news))
         order = sorted(all_anchor.items())
         for i, s in enumerate(olds):
             sp = opath + (i,)
             if i in anchors:
                 j = anchors[i]
-                amb = fn.count(fo[i]) > 1
+                amb = fn.count(fo[i]) > 1 or fo.count(fo[i]) > 1
                 self.stmt[sp] = ('same', npath + (j,), amb)
                 # children are identical too
                 self._same_children(s, news[j], sp, npath + (j,))
             elif i in inside:
                 j = inside[i]
                 self.stmt[sp] = ('inside', npath + (j,))
-                nf = dict(block_fields(news[j]))
-                for field, sub in block_fields(s):
-                    if field in nf:
-                        self._align(sub, nf[field], sp + (field,), npath + (j, field))
-                    else:
-                        for k, c in enumerate(sub.stmts):
-                            self.stmt[sp + (field, k)] = ('lost',)
-                            self._mark_lost(c, sp + (field, k))
+                self._align_children(s, news[j], sp, npath + (j,))
             else:
                 lo = 0
                 hi = len(news)
@@ -231,7 +249,20 @@ class Alignment:
                         hi = nj
                         break
                 self.stmt[sp] = ('rewritten', npath, lo, hi)
-                self._mark_lost(s, sp)
+                if i in carried:
+                    self._align_children(s, news[carried[i]], sp, npath + (carried[i],))
+                else:
+                    self._mark_lost(s, sp)
+
+    def _align_children(self, s, t, sp, tp):
+        nf = dict(block_fields(t))
+        for field, sub in block_fields(s):
+            if field in nf:
+                self._align(sub, nf[field], sp + (field,), tp + (field,))
+            else:
+                for k, c in enumerate(sub.stmts):
+                    self.stmt[sp + (field, k)] = ('lost',)
+                    self._mark_lost(c, sp + (field, k))
 
     def _same_children(self, s_old, s_new, op, np_):
         nf = dict(block_fields(s_new))
